@@ -35,6 +35,13 @@ Definition ordering_rank (o : comparison) : nat :=
 Definition ordering_cmp (l r : comparison) : comparison :=
   Nat.compare (ordering_rank l) (ordering_rank r).
 
+(** derived [Ord] of a struct: fields in declaration order, the first non-equal one decides *)
+Definition lexprod (a b : comparison) : comparison :=
+  match a with Eq => b | o => o end.
+Definition pair_cmp {A B} (cA : A -> A -> comparison) (cB : B -> B -> comparison)
+    (p q : A * B) : comparison :=
+  lexprod (cA (fst p) (fst q)) (cB (snd p) (snd q)).
+
 (** a lawful total order given by a three-way comparison *)
 Record lawful {A} (cmpA : A -> A -> comparison) : Prop := {
   law_eq : forall x y, cmpA x y = Eq <-> x = y;
